@@ -485,6 +485,15 @@ class Interp:
         else:
             raise Unsupported('augmented assignment target')
         rhs = self.eval(st.value, env)
+        if isinstance(st.op, ast.Add) and isinstance(cur, SAny) and getattr(cur, 'shared_from', None) is not None \
+                and not self.spec():
+            # `x += y` extends a list IN PLACE.  x was read out of a container: if it is a list, the container's
+            # own value changes - a frame violation unless the contract lists that container under assigns.
+            if self.ctx.feasible(PV.is_PList(cur.t)):
+                fid = self.contract.id if self.contract else '?'
+                self.ctx.oblige('%s.frame.no_inplace_extension_of_shared_list@L%s' % (fid, st.lineno),
+                                z3.Not(PV.is_PList(cur.t)), st.lineno, 'frame',
+                                info={'clause': 'a list read from a container is not extended in place (+=)'})
         # in-place list extension keeps identity
         if isinstance(st.op, ast.Add) and isinstance(cur, VList):
             B.list_extend(self, cur, rhs)
@@ -661,7 +670,7 @@ class Interp:
             ok = z3.Length(seq) == n
             if not self.ctx.branch(ok, 'unpack@%s' % line):
                 self.raise_py('ValueError', 'unpack arity', line)
-            return [lower(seq[i]) for i in range(n)]
+            return [B.taint(lower(seq[i]), v) for i in range(n)]
         elif isinstance(v, VDict) and not v.symbolic:
             items = list(v.keys)
         else:
@@ -978,7 +987,13 @@ class Interp:
         args = []
         for a in e.args:
             if isinstance(a, ast.Starred):
-                args.extend(B.concrete_items_strict(self, self.eval(a.value, env)))
+                sv = self.eval(a.value, env)
+                items = B.concrete_items(self, sv)
+                if items is None:
+                    # *t for a tuple of symbolic shape: its arity must fill the callee's remaining positionals
+                    n = self.remaining_positionals(e, env, len(args))
+                    items = self.unpack(sv, n, line)
+                args.extend(items)
             else:
                 args.append(self.eval(a, env))
         kwargs = {}
@@ -1008,6 +1023,25 @@ class Interp:
             return self.call_method(base, f.attr, args, kwargs, line)
         fn = self.eval(f, env)
         return self.call_value(fn, args, kwargs, line)
+
+    def remaining_positionals(self, e, env, have):
+        f = e.func
+        target = None
+        if isinstance(f, ast.Attribute):
+            base = self.eval(f.value, env)
+            if isinstance(base, VObj):
+                target = self.getattr(base, f.attr, e.lineno)
+        else:
+            target = self.eval(f, env)
+        fn, skip = None, 0
+        if isinstance(target, VBound) and isinstance(target.func, VFunc):
+            fn, skip = target.func, 1
+        elif isinstance(target, VFunc):
+            fn = target
+        if fn is None:
+            raise Unsupported('*args of symbolic shape in a call whose callee is not a repository function')
+        params = [p.arg for p in fn.node.args.posonlyargs + fn.node.args.args]
+        return len(params) - skip - have
 
     # ------------------------------------------------------------------ calls
     def call_value(self, fn, args, kwargs, line=None):
